@@ -182,7 +182,8 @@ func lexDatadogSpecial(l *Lexer) stateFn {
 }
 
 func lexEventBody(l *Lexer) stateFn {
-	if l.len-l.pos < l.eventTitleLen+1+l.eventTextLen {
+	// The declared lengths come from the wire: add them in 64 bits, a uint32 sum can wrap to a small number.
+	if uint64(l.len-l.pos) < uint64(l.eventTitleLen)+1+uint64(l.eventTextLen) {
 		l.err = errNotEnoughData
 		return nil
 	}
